@@ -27,6 +27,7 @@ type dlAct struct {
 	A string `json:"a"`
 	D int    `json:"d"`
 	P int    `json:"p"`
+	Q int    `json:"q"`
 }
 
 type dlX struct {
@@ -34,6 +35,7 @@ type dlX struct {
 	Active []int    `json:"active"`
 	PC     []string `json:"pc"`
 	Claim  []int    `json:"claim"`
+	Dead   []int    `json:"dead"`
 }
 
 type dlRun struct {
@@ -43,10 +45,11 @@ type dlRun struct {
 	release map[string]chan struct{}
 	tops    map[string]*gatedOp // peer -> the op of its transfer goroutine
 	started chan string
-	running int
-	peak    int
+	inside  map[string]context.Context // transfer functions that have not returned, with the context each was given
+	peak    int                        // most transfer functions inside at once whose context was still live
 	disp    map[int]*gatedOp
 	trace   []string
+	dead    []string // receivers whose transfer function was entered with a cancelled context
 }
 
 func dlPeer(i int) string { return fmt.Sprintf("p%d", i) }
@@ -54,19 +57,29 @@ func dlPeer(i int) string { return fmt.Sprintf("p%d", i) }
 func (r *dlRun) transferFn(ctx context.Context, peer string) error {
 	op := adoptCurrent("transfer:"+peer, "host.emit.start", "host.transfer.done")
 	r.mu.Lock()
+	if ctx.Err() != nil {
+		r.dead = append(r.dead, peer)
+	}
 	r.tops[peer] = op
 	ch := r.release[peer]
-	r.running++
-	if r.running > r.peak {
-		r.peak = r.running
+	r.inside[peer] = ctx
+	// a transfer whose receiver has left (context cancelled) is winding down, not serving: the bound is on the live ones
+	live := 0
+	for _, c := range r.inside {
+		if c.Err() == nil {
+			live++
+		}
+	}
+	if live > r.peak {
+		r.peak = live
 	}
 	r.mu.Unlock()
 	r.started <- peer
-	<-ch
+	<-ch // (a transfer function takes its time to notice that its context was cancelled: the driver decides when it returns)
 	r.mu.Lock()
-	r.running--
+	delete(r.inside, peer)
 	r.mu.Unlock()
-	return nil
+	return ctx.Err()
 }
 
 func (r *dlRun) waitStarted(peer string) bool {
@@ -103,6 +116,7 @@ func DispatchLoop(args []string) {
 	max := fs.Int("max", 2, "Max")
 	nq := fs.Int("nq", 4, "NQ")
 	busy := fs.Int("busy", 1, "Busy")
+	late := fs.Int("late", 0, "Late")
 	shard := fs.Int("shard", 0, "shard")
 	shards := fs.Int("shards", 1, "shards")
 	fs.Parse(args)
@@ -121,10 +135,10 @@ func DispatchLoop(args []string) {
 			continue
 		}
 		path := g.PathTo(target)
-		r := &dlRun{max: *max, release: map[string]chan struct{}{}, tops: map[string]*gatedOp{}, started: make(chan string, 64), disp: map[int]*gatedOp{}}
+		r := &dlRun{max: *max, release: map[string]chan struct{}{}, tops: map[string]*gatedOp{}, inside: map[string]context.Context{}, started: make(chan string, 64), disp: map[int]*gatedOp{}}
 		r.v = app.VerifNewSender(*max, time.Hour, r.transferFn)
 		ctx, cancel := context.WithCancel(context.Background())
-		for i := 1; i <= *nq+*busy; i++ {
+		for i := 1; i <= *nq+*busy+*late; i++ {
 			r.release[dlPeer(i)] = make(chan struct{})
 		}
 		trouble := ""
@@ -150,7 +164,7 @@ func DispatchLoop(args []string) {
 			json.Unmarshal(e.Act, &a)
 			var x dlX
 			json.Unmarshal(e.X, &x)
-			r.trace = append(r.trace, fmt.Sprintf("%s(d%d,p%d)", a.A, a.D, a.P))
+			r.trace = append(r.trace, fmt.Sprintf("%s(d%d,p%d,q%d)", a.A, a.D, a.P, a.Q))
 			res.Steps++
 			acts[a.A]++
 			var op *gatedOp
@@ -173,7 +187,15 @@ func DispatchLoop(args []string) {
 					trouble = "the transfer of " + claimed + " was not launched after its dispatcher moved on"
 					ok = false
 				}
-			case "Finish":
+			case "Enqueue":
+				r.v.Join(dlPeer(a.Q))
+				r.v.Enqueue(dlPeer(a.Q))
+			case "LeaveRunning":
+				// the receiver of a running transfer leaves: the real handlePeerLeft (slot released, context cancelled, dispatch)
+				peer := dlPeer(a.P)
+				op = startOpOnly(fmt.Sprintf("leave:%s", peer), nil, []string{"host.emit.start"}, func() { r.v.Leave(peer) })
+				r.disp[a.D] = op
+			case "Finish", "FinishLeft":
 				peer := dlPeer(a.P)
 				r.mu.Lock()
 				top := r.tops[peer]
@@ -200,7 +222,14 @@ func DispatchLoop(args []string) {
 			snap := r.v.Snap()
 			r.mu.Lock()
 			peak := r.peak
+			dead := append([]string(nil), r.dead...)
 			r.mu.Unlock()
+			if len(dead) > 0 {
+				res.AddViolation(map[string]any{"kind": "transfer_started_with_a_cancelled_context", "via": "dispatch-loop"},
+					map[string]any{"steps": r.trace, "receivers_started_dead_although_they_never_left": dead})
+				ok = false
+				break
+			}
 			if len(snap.Active) > *max || peak > *max {
 				res.AddViolation(map[string]any{"kind": "more_transfers_than_max_receivers", "via": "dispatch-loop"},
 					map[string]any{"steps": r.trace, "max_receivers": *max, "slots_taken": snap.Active, "transfer_functions_running_at_once": peak})
@@ -216,6 +245,13 @@ func DispatchLoop(args []string) {
 				wantA = append(wantA, dlPeer(p))
 			}
 			sort.Strings(wantA)
+			if a.A == "Enqueue" {
+				if !sameStrs(snap.Queue, wantQ) {
+					res.AddDrift(map[string]any{"why": "real queue differs from DispatchLoop.tla after Enqueue", "steps": r.trace, "real": snap.Queue, "spec": wantQ})
+					ok = false
+				}
+				continue
+			}
 			st, claimed := dlState(op)
 			wantPC := x.PC[a.D-1]
 			wantClaim := ""
